@@ -559,7 +559,8 @@ BgOriginT(a0, swrms) ==
                 hsame |-> 1, usame |-> 1, url |-> "" ]
      IN /\ ctr' = [ctr EXCEPT !.tag = tagn, !.tok = tokn]
         /\ led' = Emit(e)
-        /\ ex' = [ex EXCEPT !.pc = IF a.k \in {"err", "hang"} \/ "bg_shares_response" \in Defects THEN "bghandle" ELSE "bggetent",
+        /\ ex' = [ex EXCEPT !.pc = IF a.k \in {"err", "hang"} \/ "bg_shares_response" \in Defects THEN "bghandle"
+                                           ELSE IF "bg_stale_refs" \in Defects THEN "bggetent" ELSE "bggetrefs",
                             !.na = ex.na + 1, !.ncalls = ex.ncalls + 1,
                             !.got = [k |-> a.k, rep |-> rep, tok |-> tok, tag |-> tag, t0 |-> now, t1 |-> now + dur]]
         \* the background answer belongs to the step that was already logged at the return
@@ -568,6 +569,25 @@ BgOriginT(a0, swrms) ==
         /\ UNCHANGED <<now, idx, ent>>
 
 BgOrigin(a) == BgOriginT(a, 5000)
+
+\* the background task reads the index again: other variants may have been stored, or this one replaced, while the origin
+\* was asked. (The pinned tree wrote back the index as it was when the stale response was served - Defects "bg_stale_refs" -
+\* and so dropped every variant stored in between.) If the reference is no longer listed the old snapshot stays in use.
+BgGetRefs ==
+  /\ ex.pc = "bggetrefs"
+  /\ LET u == ex.rq.u
+         has == u \in DOMAIN idx /\ ~Faulty
+         cur == IF has THEN idx[u] ELSE <<>>
+         id == ex.refs[ex.ri].id
+         pos == IF \E i \in 1..Len(cur) : cur[i].id = id THEN CHOOSE i \in 1..Len(cur) : cur[i].id = id ELSE 0
+         e == IF Faulty THEN FaultEv(1, "get", "unk", <<"idx", u>>)
+              ELSE EvOp(ex.x, 1, "get", IF has THEN "idx" ELSE "unk", <<"idx", u>>, IF has THEN 1 ELSE 0, IF has THEN 0 ELSE 1,
+                        <<>>, <<>>, IF has THEN Len(idx[u]) ELSE -1, idx, ent)
+     IN /\ led' = Emit(e)
+        /\ ctr' = WithKey(ctr, <<"idx", u>>)
+        /\ ex' = [ex EXCEPT !.pc = "bggetent", !.nop = ex.nop + 1,
+                            !.refs = IF pos > 0 THEN cur ELSE ex.refs, !.ri = IF pos > 0 THEN pos ELSE ex.ri]
+  /\ UNCHANGED <<now, idx, ent, hist>>
 
 \* the background task reads its own copy of the entry (the served one belongs to the caller)
 BgGetEnt ==
@@ -641,5 +661,5 @@ BgSetIdx ==
 
 \* every step except Begin, Tick and the two origin calls (whose answers the configuration chooses)
 Internal == GetRefs \/ GetEntry \/ GetRefsFault \/ GetEntryFault \/ Serve \/ Ret504 \/ Miss \/ Revalidate \/ Missed
-            \/ SetEnt \/ SetIdx \/ Handle \/ Bypass \/ Bypassed \/ InvStep \/ SwrServe \/ BgGetEnt \/ BgHandle \/ BgSetEnt \/ BgSetIdx
+            \/ SetEnt \/ SetIdx \/ Handle \/ Bypass \/ Bypassed \/ InvStep \/ SwrServe \/ BgGetRefs \/ BgGetEnt \/ BgHandle \/ BgSetEnt \/ BgSetIdx
 =============================================================================
